@@ -23,6 +23,7 @@ GRV_CMD(scale) {
         const gr_faceinfo *fi = gr_face_info(face, 0);
         const long upem = fi ? fi->upem : 0;
         if (upem <= 0) { gr_face_destroy(face); continue; }
+        gr_face *face2 = gr_make_file_face(font.c_str(), int(j->get("opts", 0)));       // a second face object of the same font
         // texts: lines of a file (cut to 400 bytes so that design-unit positions stay inside the fixed-point range)
         // or one explicit code point sequence
         std::vector<std::string> texts;
@@ -100,12 +101,24 @@ GRV_CMD(scale) {
                     if (jok && jv[0].size() == jv[1].size()) { ++pairs; vj::W w; w.str("font", font.substr(font.rfind('/') + 1)).i("line", ln).i("upem", upem).i("p2", p2).i("j", 1).str("s0", "").str("s1", "").arr("du", jv[0]).arr("px", jv[1]); fprintf(out, "%s\n", w.done().c_str()); }
                     for (int w = 0; w < 2; ++w) if (js[w]) gr_seg_destroy(js[w]);
                 }
+                // a gr_font of the same size made from ANOTHER face object of the same font: the same positions
+                if (s1 && face2 && ((ln + p2) % 5) == 0) {
+                    gr_font *gf2 = gr_make_font(float(p2) / 2.0f, face2);
+                    gr_segment *s2 = gr_make_seg(gf2, face, 0, 0, gr_utf8, l.data(), nch, dir);
+                    SegP p2p = project(s2, face, gf2, true);
+                    bool same = p2p.slots.size() == p1.slots.size() && p2p.advX == p1.advX && p2p.advY == p1.advY;
+                    for (size_t k = 0; same && k < p1.slots.size(); ++k) same = p2p.slots[k].ox == p1.slots[k].ox && p2p.slots[k].oy == p1.slots[k].oy && p2p.slots[k].ax == p1.slots[k].ax && p2p.slots[k].gid == p1.slots[k].gid;
+                    if (!same) { vj::W w; w.str("font", font).i("line", ln).i("p2", p2); report_fail("C15", "a gr_font made from another face object of the same font gives other positions than one made from this face", w.done()); }
+                    if (s2) gr_seg_destroy(s2);
+                    gr_font_destroy(gf2);
+                }
                 if (s1) gr_seg_destroy(s1);
                 gr_font_destroy(gf);
             }
             if (s0) gr_seg_destroy(s0);
         }
         gr_face_destroy(face);
+        if (face2) gr_face_destroy(face2);
     }
     fclose(f); fclose(out);
     vj::W w; w.i("pairs", pairs).i("out_of_fixed_point_range", skipped);
